@@ -60,7 +60,7 @@ func c07Registered(cfg []c07Entry) map[string]c07Entry {
 	return m
 }
 
-var c07Variants = []string{"own-name", "absent", "null", "unknown-url", "other-builtin-name", "ext0-name", "ext1-name", "own-tag-ext-name", "both-keys", "wrong-type", "own-name-json-escaped", "own-name-respelled", "refused-registration-name", "own-name-key-long-head", "unknown-url-key-long-head", "own-name+other-name-under-congruent-key", "own-name-indefinite-length-map", "unknown-url-indefinite-length-map", "key-265-twice:unknown-then-registered+wide-key", "key-265-twice:unknown-then-null"}
+var c07Variants = []string{"own-name", "absent", "null", "unknown-url", "other-builtin-name", "ext0-name", "ext1-name", "own-tag-ext-name", "both-keys", "wrong-type", "own-name-json-escaped", "own-name-respelled", "refused-registration-name", "own-name-key-long-head", "unknown-url-key-long-head", "own-name+other-name-under-congruent-key", "own-name-indefinite-length-map", "unknown-url-indefinite-length-map", "key-265-twice:unknown-then-registered+wide-key", "key-265-twice:unknown-then-null", "absent+unknown-name-under-wide-congruent-key-after-1b"}
 
 type c07Token struct {
 	shape      int  // key family of the claims in the token
@@ -100,7 +100,7 @@ func c07Build(shape int, valid bool, variant int) *c07Token {
 	case "key-265-twice:unknown-then-registered+wide-key", "key-265-twice:unknown-then-null":
 		t.ownAbsent = true
 		t.dup265 = true
-	case "absent":
+	case "absent", "absent+unknown-name-under-wide-congruent-key-after-1b":
 		t.ownAbsent = true
 	case "null":
 		t.ownVal = nil
@@ -159,6 +159,10 @@ func c07Build(shape int, valid bool, variant int) *c07Token {
 	if c07Variants[variant] == "own-name+other-name-under-congruent-key" {
 		// an unknown key that equals the profile-2 selector key modulo 2^32 carries the other profile's name (CBOR only)
 		tree.Pairs = append([][2]*mcbor.Node{{mcbor.U(1<<32 + 265), mcbor.T(other)}}, tree.Pairs...)
+	}
+	if c07Variants[variant] == "absent+unknown-name-under-wide-congruent-key-after-1b" {
+		// unknown keys only (CBOR only): 2^64-75000 is not the profile-1 profile key, also when its head byte 0x1b follows a 0x1b
+		tree.Pairs = append(tree.Pairs, [2]*mcbor.Node{mcbor.U(77777), mcbor.U(27)}, [2]*mcbor.Node{mcbor.U(1<<64 - 75000), mcbor.T("http://unknown.example/p")})
 	}
 	if t.dup265 {
 		second := mcbor.Null()
